@@ -184,7 +184,8 @@ Qed.
 
 Lemma info_disabled_only_db : forall cfg, allret (errs only_db) (info_disabled cfg).
 Proof.
-  intro cfg. unfold info_disabled. eapply allret_bind; [apply total_balance_only_db |].
+  intro cfg. unfold info_disabled, fail. apply ADo; intro sd. destruct sd; [| ret_ok].
+  eapply allret_bind; [apply total_balance_only_db |].
   intros b Hb. destruct b as [z | e]; [ret_ok | apply ARet; exact Hb].
 Qed.
 
